@@ -8,6 +8,17 @@
   `sort.Strings` is an insertion sort by code point (the same order as Go's byte order on valid
   UTF-8).  The text `fmt.Sprintf("%s", [][]*labels.Matcher)` of the labels/series keys is an
   input (`matchers`) computed by the Go side.
+
+  PURITY ASSUMPTION.  The model makes the key a pure function of (tenant, request): `rangeKey`,
+  `labelsKey`, `seriesKey` take nothing else.  For the Go code this means that `GenerateCacheKey`
+  keeps no state between or across calls: the ONE generator value of a frontend is shared by all
+  in-flight requests, so no field of `thanosCacheKeyGenerator` may be written, sliced, appended
+  to or handed out as scratch space (a value receiver copies slice headers only, the backing
+  array stays shared), and the pooled buffer is owned by one call between `Get` and `Put` with the
+  key copied out by `String()` before it goes back.  Tied by the regenerated obligation
+  `C43_fact_generator_pure` (Props/C43.lean) and exercised by the concurrent stream `o.key.conc`
+  of the harness (one shared generator, several goroutines, oracle: every key equals the key
+  computed sequentially).
 -/
 namespace Thanos.CacheKey
 
